@@ -26,7 +26,7 @@ Inductive dres := DOk (l : list N) | DShort | DInvalid.
 
 Inductive case :=
 | CSeq (omin omax : Z) (rbuf : nat) (ctr0 : list N) (msgs : list (mspec * mobs))
-       (ops : list op) (choices : list (nat * key)) (hexp : Z) (final : list (list Z))
+       (ops : list op) (choices : list (N * key)) (hexp : Z) (final : list (list Z))
 | CDec (b : list byte) (r : dres)
 | CCfg (omin omax : Z) (r : option (Z * Z)).
 
@@ -101,25 +101,28 @@ Definition obs_row (out : option (list byte)) (st : rstate) (s : option N) : lis
 Definition hrow (h : Z) (row : list Z) : Z :=
   fold_left (fun h v => (h * 131 + v + 1) mod 4294967291) row h.
 
-(* choices: (step index, evicted key) recorded on the Go side, sorted by step *)
-Fixpoint run_ops (rbuf : nat) (frames : list (list (list byte))) (st : rstate) (now : Z) (i : nat)
-         (h : Z) (ops : list op) (choices : list (nat * key)) (hexp : Z) (final : list (list Z)) : bool :=
+(* choices: (step index, evicted key) recorded on the Go side, sorted by step.  The step index is an N
+   (a nat literal in the thousands costs thousands of constructors to elaborate, per choice). *)
+Definition ch (i s m : N) : N * key := (i, (s, m)).
+
+Fixpoint run_ops (rbuf : nat) (frames : list (list (list byte))) (st : rstate) (now : Z) (i : N)
+         (h : Z) (ops : list op) (choices : list (N * key)) (hexp : Z) (final : list (list Z)) : bool :=
   match ops with
   | [] => check_final st final && (h =? hexp)
   | o :: t =>
       let now1 := now + op_delay o in
       let st1 := fold_left (fun s tk => gc_expired tk s) (ticks_between now now1) st in
       let '(choice, rest) := match choices with
-                             | (j, k) :: r => if Nat.eqb j i then (k, r) else ((0%N, 0%N), choices)
+                             | (j, k) :: r => if N.eqb j i then (k, r) else ((0%N, 0%N), choices)
                              | [] => ((0%N, 0%N), [])
                              end in
       let pkt := fun (s : N) (dg : list byte) =>
         let r := on_packet rbuf now1 choice s dg st1 in
-        run_ops rbuf frames (fst r) now1 (S i) (hrow h (obs_row (snd r) (fst r) (Some s))) t rest hexp final in
+        run_ops rbuf frames (fst r) now1 (N.succ i) (hrow h (obs_row (snd r) (fst r) (Some s))) t rest hexp final in
       match o with
-      | OSleep _ => run_ops rbuf frames st1 now1 (S i) (hrow h (obs_row None st1 None)) t rest hexp final
+      | OSleep _ => run_ops rbuf frames st1 now1 (N.succ i) (hrow h (obs_row None st1 None)) t rest hexp final
       | OGc _ tk => let st2 := gc_expired tk st1 in
-                    run_ops rbuf frames st2 now1 (S i) (hrow h (obs_row None st2 None)) t rest hexp final
+                    run_ops rbuf frames st2 now1 (N.succ i) (hrow h (obs_row None st2 None)) t rest hexp final
       | OFrame _ s m i' => pkt s (frame_of frames m i')
       | OMut _ s m i' pos v =>
           let f := frame_of frames m i' in
@@ -149,7 +152,7 @@ Definition check (c : case) : bool :=
       | None => false
       | Some cf =>
           check_msgs cf ctr0 msgs &&
-          run_ops rbuf (map (fun mo => ob_frames (snd mo)) msgs) r_init 0 0 0 ops choices hexp final
+          run_ops rbuf (map (fun mo => ob_frames (snd mo)) msgs) r_init 0 0%N 0 ops choices hexp final
       end
   | CDec b r => dres_eqb r (dres_of (decode_frame b)) && negb (is_panic (decode_frame b))
   | CCfg omin omax r =>
